@@ -2,9 +2,9 @@ REST = {"dir": "api/rest", "pkgname": "rest"}
 
 SPEC = {
     "go": [dict(REST, files=["api_rest/c11_rig_test.go", "api_rest/c11_test.go"], test="TestVerifC11",
-                n_quick=1500, n_thorough=48000, shards_quick=4, shards_thorough=16)],
-    "gen": ["RestRoutes", "RestClient"],
-    "force": ["Model/C11_Rest.v", "Model/C11_Check.v", "Proofs/C11_Rest.v"],
+                n_quick=1500, n_thorough=48000, shards_quick=8, shards_thorough=48)],
+    "gen": ["RestRoutes", "RestClient", "C08Status"],
+    "force": ["Model/C11_Rest.v", "Model/C11_Check.v", "Model/C11_Tables.v", "Proofs/C11_Rest.v", "Proofs/C11_Client.v", "Proofs/C11_ClientC08.v"],
     "diag": True,
     "rule": "generated: every route x {valid, invalid} pools for each path variable (CID, IPFS path, peer ID), each pin option, each add "
             "option, the JSON body and the filters x credentials {none configured; configured with missing / wrong / undecodable / right} "
@@ -15,15 +15,24 @@ SPEC = {
               21: "4xx answer (nothing failed in the cluster) but a cluster operation was performed", 22: "answer without exactly the operation the route names / malformed part not refused",
               23: "body is not a single JSON document", 24: "5xx answer without a failing cluster call", 30: "client call did not arrive with the arguments it was given",
               31: "client did not return what the server answered"},
+    "tags": {1: "client-pinpath-recover-shadowed"},
     "trusted": ["harness/api_rest/c11_rig_test.go: recording Cluster/PeerMonitor/IPFSConnector RPC services behind the real NewAPI",
                 "net/http, gorilla/mux cleanPath, rs/cors, net/url, go-cid, go-path, peer.Decode, PinOptions.FromQuery, AddParamsFromQuery, TrackerStatusFromString: outcomes are inputs of the model",
                 "tools/gen/restroutes.go, tools/gen/restclient.go (syntactic translators)"],
-    "level_text": "Theorems (Props/C11.v, all closed) over the Gallina transcription of the REST layer (basic-auth wrapper, mux matching with StrictSlash over the "
-                  "generated route table Gen/RestRoutes.v, the 21 handlers, sendResponse) and of the client's request construction (Gen/RestClient.v) for every request, "
-                  "parse outcome, credential configuration and RPC failure script; the transcription is compared with the real API and the real client library on generated "
-                  "requests at every run and the implementation's own observations are checked against the boolean form of the property",
+    "level_text": "24 theorems (Props/C11.v, all closed) over the Gallina transcription of the REST layer (basic-auth wrapper outside rs/cors outside the router, "
+                  "mux matching with StrictSlash over the generated route table Gen/RestRoutes.v, the 21 handlers, sendResponse) and of the client's request "
+                  "construction (Gen/RestClient.v), for every request, parser outcome, credential configuration and RPC failure script: rest_fail_closed (a malformed "
+                  "part: exactly 400, one document, no call), rest_wellformed_translated / rest_calls_exact (otherwise, and whenever anything is called, exactly the "
+                  "operation the route names with the parsed CID / path / peer / options, against the hand-written spec_expect), rest_single_document (the NDJSON /add "
+                  "stream excepted by name), rest_auth_total (no listed pair: 401 and nothing called for every method and path, pre-flights included), rest_route_ops "
+                  "(generated call sites = what the route name denotes), client_faithful (every client method arrives with the arguments given, under an explicit "
+                  "guard; composed with C08's query and status-name round trips), soundness of the boolean monitor and model_satisfies_spec; the transcription is "
+                  "compared with the real API and the real client library on generated requests at every run and the implementation's own observations are checked "
+                  "against the boolean form of the property",
     "level_note": "model tied to code by regenerated tables plus differential testing (generator-bounded); parsers are abstract; the /add NDJSON stream is the documented "
-                  "exception to the single-document clause; 301 redirects (cleanPath, StrictSlash) are router behaviour; libp2p-http endpoint and TLS not exercised",
-    "assumptions": ["parsers are abstract (their accept/reject outcome and value is an input); C08 proves the query round trip used by client_faithful",
+                  "exception to the single-document clause; 301 redirects (cleanPath, StrictSlash) are router behaviour; the client clause holds under client_guard: "
+                  "client_faithful_pinpath_recover_refuted (PinPath of /ipns/recover is taken by the Recover route, a recorded finding) and unescaped path arguments "
+                  "(metric names / IPFS paths containing % ? # or empty segments) are outside it; libp2p-http endpoint and TLS not exercised",
+    "assumptions": ["parsers are abstract (their accept/reject outcome and value is an input); client_options_faithful / client_filter_faithful instantiate the round-trip outcomes with C08's query_roundtrip and status_roundtrip_valid",
                     "RPC outcomes are an input (failure script)"],
 }
